@@ -12,7 +12,13 @@ from .tlc import MachineryError
 
 # property -> (level, [engine module names])
 REGISTRY = {
+    "C03": ("model_checking", ["cuckoo"]),
     "C04": ("model_checking", ["qf"]),
+    "C05": ("model_checking", ["cuckoo"]),
+    "C08": ("model_checking", ["cuckoo"]),
+    "C14": ("model_checking", ["qf", "cuckoo"]),
+    "C15": ("model_checking", ["cuckoo"]),
+    "C19": ("model_checking", ["qf", "cuckoo"]),
     "C20": ("model_checking", ["bitarray"]),
 }
 
